@@ -84,6 +84,15 @@ class Run:
     def finish(self):
         self._apply_instance_floors()
         out = sys.stdout
+        # A failed modelling precondition (rule "<id>-pre") means the event skeleton no longer represents the code:
+        # nothing derived from it is a verdict, in either direction.  The run is INCONCLUSIVE, not a VIOLATION.
+        broken = [i for i in self.instances if i["verdict"] == "INCONCLUSIVE" and i["rule"].endswith("-pre")]
+        if broken:
+            for i in self.instances:
+                if i["verdict"] == "VIOLATION":
+                    i["verdict"] = "INCONCLUSIVE"
+                    i["nontrivial"] = False
+                    i["detail"] = "not decided (modelling precondition %s failed): %s" % (broken[0]["key"][:80], i["detail"])
         viol = [i for i in self.instances if i["verdict"] == "VIOLATION"]
         inc = [i for i in self.instances if i["verdict"] == "INCONCLUSIVE"]
         known_open = {(k["property"], k["key"]): k for k in self.known if k.get("state") == "open"}
